@@ -623,7 +623,7 @@ func (g *gen) stmt(b *sb, d int) {
 		return
 	}
 	g.budget--
-	k := g.c.Int(28)
+	k := g.c.Int(29)
 	if d <= 0 && k >= 8 {
 		k = g.c.Int(8)
 	}
@@ -1029,6 +1029,37 @@ func (g *gen) stmt(b *sb, d int) {
 		g.pop()
 		b.ind--
 		b.line("})")
+	case 28: // imported types in positions other than declarations
+		it := g.importedTypes()
+		if len(it) == 0 {
+			b.line("_ = %s", g.expr("string", 2))
+			return
+		}
+		t := it[g.c.Int(len(it))]
+		switch g.c.Int(3) {
+		case 0:
+			v := g.fresh(false)
+			b.line("switch %s := any(%s).(type) {", v, g.hexpr("int", 1))
+			b.line("case %s:", t)
+			b.line("\t_ = %s", v)
+			b.line("default:")
+			b.line("\t_ = %s", v)
+			b.line("}")
+		case 1:
+			f := g.fresh(false)
+			b.line("%s := func(x %s, n int) int { return n }", f, t)
+			b.line("_ = %s", f)
+			g.declare(f, "closure")
+		case 2:
+			v, ok := g.fresh(false), g.fresh(false)
+			if v == ok {
+				ok += "k"
+			}
+			b.line("%s, %s := any(%s).(%s)", v, ok, g.expr("string", 1), t)
+			b.line("_, _ = %s, %s", v, ok)
+			g.declare(v, t)
+			g.declare(ok, "bool")
+		}
 	case 25: // field / index / pointer assignment
 		if len(g.structs) > 0 {
 			s := g.structs[g.c.Int(len(g.structs))]
@@ -1151,6 +1182,30 @@ func Generate(c Chooser, o GenOptions) *Program {
 			b.line("}")
 		})
 	}
+	if chance(c, 1, 2) {
+		// a grouped declaration: type ( ... ), members may be completed in any order
+		a, bb2 := g.fresh(true), g.fresh(true)
+		fld := ""
+		if it := g.importedTypes(); len(it) > 0 {
+			t := it[c.Int(len(it))]
+			if !strings.HasPrefix(t, "*") {
+				t = "*" + t
+			}
+			fld = "\t\tD " + t + "\n"
+		}
+		emit(func(b *sb) {
+			b.line("type (")
+			b.line("\t%s struct {", a)
+			b.line("\t\tNext *%s", bb2)
+			b.WriteString(fld)
+			b.line("\t}")
+			b.line("\t%s struct {", bb2)
+			b.line("\t\tPrev *%s", a)
+			b.line("\t\tM map[string][]*%s", a)
+			b.line("\t}")
+			b.line(")")
+		})
+	}
 	if len(g.structs) > 0 && chance(c, 2, 3) {
 		iname := g.fresh(true)
 		g.ifaces = append(g.ifaces, iname)
@@ -1234,7 +1289,14 @@ func Generate(c Chooser, o GenOptions) *Program {
 		case 2: // const
 			name := g.fresh(true)
 			emit(func(b *sb) {
-				if chance(c, 1, 2) {
+				if p, ok := g.impByPath("math"); ok && chance(c, 1, 3) {
+					b.line("const %s = %s.MaxInt16 + %d", name, p, c.Int(9))
+				} else if p, ok := g.impByPath("strconv"); ok && chance(c, 1, 3) {
+					b.line("const %s = %s.IntSize", name, p)
+				} else if it := g.importedTypes(); len(it) > 0 && chance(c, 1, 3) {
+					b.Reset()
+					b.line("var %s map[string][]%s", name, it[c.Int(len(it))])
+				} else if chance(c, 1, 2) {
 					b.line("const %s = %d", name, c.Int(50))
 				} else {
 					b.line("const %s = %q", name, "k")
